@@ -884,3 +884,67 @@ pub fn cmd_replay(path: &str) -> i32 {
         0
     }
 }
+
+// ---------------------------------------------------------------------------
+// Miri tier
+// ---------------------------------------------------------------------------
+
+/// Runs every `stride`-th directed trace and `seeded` seeded traces in this
+/// process. Meant to be interpreted by Miri: undefined behaviour, invalid
+/// frees and leaks are reported by Miri itself (non-zero exit); the model
+/// oracles still run and report through the return code.
+pub fn cmd_miri(prop: Prop, base: u64, stride: u64, seeded: u64) -> i32 {
+    let mut bad = 0;
+    let directed = gen::directed(prop);
+    let mut items: Vec<(Mode, u64, Trace)> = Vec::new();
+    let mut i = 0u64;
+    while (i as usize) < directed.len() && stride > 0 {
+        items.push((Mode::Directed, i, directed[i as usize].clone()));
+        i += stride;
+    }
+    for idx in 0..seeded {
+        let t = gen::gen_trace(prop, mix(base, idx));
+        // keep interpretation time bounded: short traces, moderate contents
+        if t.ops.len() <= 24 && t.ops.iter().all(|o| o.b.iter().map(|b| b.len()).sum::<usize>() <= 1200) {
+            items.push((Mode::Seeded, idx, t));
+        }
+    }
+    for (mode, idx, mut t) in items {
+        t.cfg = Config::BASELINE;
+        println!("MIRI-TRACE {} {} {}", prop.id(), mode.name(), idx);
+        let out = crate::interp::execute(prop, &t);
+        for v in &out.violations {
+            println!("MIRI-ORACLE-VIOLATION {} op {}: {}", v.sig, v.op, v.detail);
+            bad += 1;
+        }
+    }
+    println!("MIRI-DONE {}", prop.id());
+    if bad > 0 {
+        1
+    } else {
+        0
+    }
+}
+
+pub fn cmd_miri_replay(path: &str) -> i32 {
+    let Ok(text) = std::fs::read_to_string(path) else {
+        println!("HARNESS-ERROR: cannot read {path}");
+        return 2;
+    };
+    let Ok(rep) = Replay::from_text(&text) else {
+        println!("HARNESS-ERROR: cannot parse {path}");
+        return 2;
+    };
+    let Some(prop) = Prop::from_id(&rep.trace.property) else { return 2 };
+    let mut t = rep.trace.clone();
+    t.cfg = Config::BASELINE;
+    let out = crate::interp::execute(prop, &t);
+    for v in &out.violations {
+        println!("MIRI-ORACLE-VIOLATION {} op {}: {}", v.sig, v.op, v.detail);
+    }
+    if out.violations.is_empty() {
+        0
+    } else {
+        1
+    }
+}
